@@ -10,7 +10,8 @@ they are in the polynomial basis.
 
 Repaired behaviours: the public-key check `ec2IsOnA` in dstuVerify (docs/C16.fix-3.diff) and the
 x = 0 branches of dstuPointCompress / dstuPointRecover (docs/C16.fix-4.diff), dstuPointCompress refusing the
-point (1, y) with tr(y) = 0 (docs/C16.fix-5.diff).
+point (1, y) with tr(y) = 0 (docs/C16.fix-5.diff), the private-key range check of dstuSign (docs/C16.fix-7.diff),
+dstuPointRecover rejecting a string whose x becomes 0 after the trace rule (docs/C16.fix-8.diff).
 -/
 import Bee2V.C16.Common
 namespace Bee2V.C16
@@ -169,6 +170,8 @@ def recover (C : Dstu G F) (xp : Bytes) : Err × Bytes :=
     let trace := C.f.low x
     let x := C.f.clearLow x
     let x := if C.f.tr x != C.A then C.f.add x C.f.one else x
+    -- only the zero string codes the point with x = 0 (REPAIRED behaviour, docs/C16.fix-8.diff)
+    if C.f.isZero x then (.badPoint, []) else
     -- y <- x + a + b / x²
     let y := C.f.add (C.f.div C.B (C.f.sqr x)) x
     let y := if C.A then C.f.add y C.f.one else y
@@ -231,6 +234,8 @@ def signLoop (C : Dstu G F) (ld d : Nat) (h : F) : Nat → Bytes → Nat → Opt
 /-- dstuSign: (code, sig, octets requested) -/
 def sign (C : Dstu G F) (fuel ld : Nat) (Hb priv tape : Bytes) : Option (Err × Bytes × Nat) :=
   if ld % 16 ≠ 0 ∨ ld < 16 * C.oo then some (.badInput, [], 0) else
+  -- step 2: 0 < d < n (REPAIRED behaviour, docs/C16.fix-7.diff)
+  if leNat priv = 0 ∨ leNat priv ≥ C.n then some (.badPrivkey, [], 0) else
   match C.hashF Hb with
   | none => none
   | some h => C.signLoop ld (leNat priv) h fuel tape 0
